@@ -174,6 +174,34 @@ _PROP = re.compile(r"Error: (Action property|Temporal properties|Action property
 _COV = re.compile(r"^<(\w+) line \d+, col \d+ to line \d+, col \d+ of module (\w+)>: (\d+):(\d+)", re.M)
 
 
+def _depth(text):
+    """bracket depth of << >> [ ] { } ( ) outside string literals"""
+    d = 0
+    instr = False
+    k = 0
+    while k < len(text):
+        c = text[k]
+        if instr:
+            if c == "\\":
+                k += 1
+            elif c == '"':
+                instr = False
+        elif c == '"':
+            instr = True
+        elif text.startswith("<<", k):
+            d += 1
+            k += 1
+        elif text.startswith(">>", k):
+            d -= 1
+            k += 1
+        elif c in "[{(":
+            d += 1
+        elif c in "]})":
+            d -= 1
+        k += 1
+    return d
+
+
 def run_tlc(
     module,
     cfg,
@@ -279,13 +307,29 @@ def run_tlc(
         res.violated = "Deadlock"
     if re.search(r"POSTCONDITION.*(violated|false)|Postcondition.*violated|Error: The postcondition", out, re.I):
         res.postcondition_failed = True
-    for line in out.splitlines():
-        ls = line.strip()
-        if ls.startswith("<<") and ls.endswith(">>"):
-            try:
-                res.printed.append(parse_value(ls))
-            except ValueError:
-                pass
+    # PrintT output: tuples; TLC wraps values longer than ~80 columns over several lines, so a
+    # tuple is assembled by bracket matching.  A tuple that cannot be parsed is a machinery failure
+    # (never silently dropped): see TLCResult.unparsed.
+    res.unparsed = []
+    lines = out.splitlines()
+    i = 0
+    while i < len(lines):
+        ls = lines[i].strip()
+        if ls.startswith("<<"):
+            buf = ls
+            j = i
+            while _depth(buf) > 0 and j + 1 < len(lines) and j - i < 400:
+                j += 1
+                buf += " " + lines[j].strip()
+            if _depth(buf) == 0:
+                try:
+                    res.printed.append(parse_value(buf))
+                except ValueError:
+                    res.unparsed.append(buf[:300])
+                i = j
+            else:
+                res.unparsed.append(ls[:300])
+        i += 1
     if res.violated:
         res.trace = _parse_trace(out)
     for m in _COV.finditer(out):
@@ -304,6 +348,8 @@ def run_tlc(
                 break
     if fatal and not res.postcondition_failed:
         res.error = fatal
+    if res.unparsed and not res.error and not res.violated:
+        res.error = "unparsable PrintT output (verdict lines would be lost): %r" % res.unparsed[:3]
     if rc not in (0, 12, 13, 10, 11) and not res.violated and not res.error and not simulate:
         res.error = "TLC exit code %s\n%s" % (rc, out[-3000:])
     return res
